@@ -128,7 +128,15 @@ let () =
       (match Hashtbl.find_opt parsed_items name with
        | None -> ()
        | Some d ->
-           let hs = headers { h_dbg = on "dbg"; h_ns = on "ns"; h_sd = on "sd" } (on "gs") d in
-           List.iteri (fun k h -> Printf.printf "ITEM %s HDR%d %s\n" name k (show_tts h)) hs;
-           Printf.printf "ITEM %s HDRN %d\n" name (List.length hs))
+           (match type_defs d with
+            | None -> Printf.printf "ITEM %s HDRPANIC -\n" name                    (* the templates panic on this combination *)
+            | Some td ->
+                let hs = headers { h_dbg = on "dbg"; h_ns = on "ns"; h_sd = on "sd" } (on "gs") d in
+                List.iteri (fun k h -> Printf.printf "ITEM %s HDR%d %s\n" name k (show_tts h)) hs;
+                Printf.printf "ITEM %s HDRN %d\n" name (List.length hs);
+                (* the generated type definitions (coq/parse/ParseBody.v) *)
+                Printf.printf "ITEM %s HDRBODY0 %s\n" name (show_tts td.td_owned_body);
+                Printf.printf "ITEM %s HDRBODY1 %s\n" name (show_tts td.td_ref_body);
+                List.iteri (fun k a -> Printf.printf "ITEM %s HDRALIAS%d %s\n" name k (show_tts a)) td.td_aliases;
+                Printf.printf "ITEM %s HDRDEFS %d\n" name (2 + List.length td.td_aliases)))
     | _ -> ())
